@@ -90,13 +90,8 @@ impl Rng {
         // values that mean something in this domain: magics, classic
         // addresses and geometries, page/segment sizes, 32/64-bit boundaries —
         // the constants a maintainer would special-case
-        const DICT: [u64; 30] = [
-            0xB8000, 0xA0000, 0x100000, 0x1000, 0x7C00, 0xE852_50D6, 0x36D7_6289, 0x1BAD_B002, 0x2BAD_B002,
-            640, 480, 800, 600, 1024, 768, 80, 25, 32, 24, 16, 15, 8, 4, 0xFFFF, 0x1_0000, 0xFFFF_FFFE,
-            0x1_0000_0000, 0xFFFF_FFFF_FFFF_F000, 0x8000_0000, 0x7FFF_FFFF,
-        ];
         match self.below(11) {
-            10 => *self.pick(&DICT) & mask,
+            10 => self.dict(bits),
             0 => 0,
             1 => 1,
             2 => mask,
@@ -124,6 +119,19 @@ impl Rng {
             }
             _ => self.next_u64() & mask,
         }
+    }
+
+    /// A value that means something in this domain: magics, classic
+    /// addresses and geometries, structure sizes, page/segment sizes,
+    /// 16/32/64-bit boundaries — the constants a maintainer would special-case.
+    pub fn dict(&mut self, bits: u32) -> u64 {
+        const DICT: [u64; 40] = [
+            0xB8000, 0xA0000, 0x100000, 0x1000, 0x7C00, 0xE852_50D6, 0x36D7_6289, 0x1BAD_B002, 0x2BAD_B002,
+            640, 480, 800, 600, 1024, 768, 80, 25, 32, 24, 16, 15, 8, 4, 2, 3, 0xFFFF, 0x1_0000, 0xFFFF_FFFE,
+            0x1_0000_0000, 0xFFFF_FFFF_FFFF_F000, 0x8000_0000, 0x7FFF_FFFF, 40, 64, 48, 20, 28, 36, 0xFF, 0x100,
+        ];
+        let mask = if bits >= 64 { u64::MAX } else { (1u64 << bits) - 1 };
+        *self.pick(&DICT) & mask
     }
 
     pub fn bytes(&mut self, n: usize) -> Vec<u8> {
